@@ -544,6 +544,8 @@ class C04(Oracle):
         elif st.extra.get('val') is None and sto.route in ('ctor', 'like_kw', 'tpl_kw') and sto.src is None:
             vals = ((), [Fraction(0)])
         prop_inacc = any(status_dict(st.pre[i]['status']).get('inaccuracy') for i in sto.prop if i in st.pre)
+        if st.extra.get('const_inexact'):
+            prop_inacc = True     # the constant operand was itself quantized inexactly: it carries the flag
         post = {f: bool(tgt.status.get(f, False)) for f in FLAGS}
         aborted = st.outcome == 'aborted'
         judged_exact = False
